@@ -337,6 +337,21 @@ Definition obj_get (o : odobj) (k : key) : res odvar :=
   | OCont c => match k with KI i => cont_get_int c i | KS t => cont_get_str c t end
   end.
 
+(* `k in container`: ODRecord.__contains__ looks the key up in its two tables; ODArray inherits Mapping.__contains__,
+   which tries self[k] and answers False on KeyError (so members made from the array template are "in" the array) *)
+Definition obj_contains (o : odobj) (k : key) : bool :=
+  match o with
+  | OVar _ => false
+  | OCont c =>
+      match c_kind c with
+      | KRec => match k with
+                | KI i => match zassoc i (c_subs c) with Some _ => true | None => false end
+                | KS t => match sassoc t (c_names c) with Some _ => true | None => false end
+                end
+      | KArr => match obj_get o k with Ok _ => true | _ => false end
+      end
+  end.
+
 Definition od_get (od : odict) (k : key) : res lres :=
   match k with
   | KI i => rbind (od_get_int od i) (fun p => Ok (LObj (fst p) (snd p)))
@@ -850,7 +865,9 @@ Definition obj_val (o : odobj) : val :=
                    vopt vstr (c_storage c); VL (map (fun p => var_val (snd p)) (zsort (c_subs c)));
                    VL (map (fun k => VL [VS k; match sassoc k (c_names c) with
                                                | Some v => VZ (v_sub v) | None => VNone end])
-                           (ssort (map fst (c_names c))))]
+                           (ssort (map fst (c_names c))));
+                   VZ (Z.of_nat (length (c_subs c)));                       (* len(container) *)
+                   VL (map (fun p => VZ (fst p)) (zsort (c_subs c)))]       (* list(container) *)
   end.
 
 Definition devinfo_val (od : odict) : val :=
@@ -902,6 +919,9 @@ Definition lookup (od : odict) (k1 : key) (k2 : option key) : val :=
   match k2 with
   | None => lres_val od (od_get od k1)
   | Some k => match od_get od k1 with
+              | Ok (LObj id (OCont c)) =>
+                  VL [res_val (fun v => VL [var_val v; same_var od id v]) (obj_get (OCont c) k);
+                      VBool (obj_contains (OCont c) k)]
               | Ok (LObj id o) => res_val (fun v => VL [var_val v; same_var od id v]) (obj_get o k)
               | Ok (LVar _ _) => VErr E_TYPE
               | Err e => VErr e
